@@ -19,6 +19,10 @@ pub const KW_ENDWHILE: [&str; 4] = ["end", "end_while", "endwhile", "std::flowco
 pub const KW_FOR: [&str; 2] = ["for", "std::flowcontrol::ForIn"];
 pub const KW_ENDFOR: [&str; 3] = ["end", "end_for", "std::flowcontrol::EndForIn"];
 
+pub const KW_FN: [&str; 3] = ["fn", "function", "std::flowcontrol::Function"];
+pub const KW_ENDFN: [&str; 4] = ["end", "end_fn", "end_function", "std::flowcontrol::EndFunction"];
+pub const KW_RET: [&str; 2] = ["return", "std::flowcontrol::Return"];
+
 pub struct Gen<'a> {
     pub rng: &'a mut Rng,
     pub next_id: usize,
@@ -26,6 +30,15 @@ pub struct Gen<'a> {
     pub max_depth: usize,
     pub loops: usize,
     pub canonical_only: bool,
+    /// callable functions: (name, arity, leaf = safe in condition position)
+    pub calls: Vec<(String, usize, bool)>,
+    /// generating a function body: `return` statements allowed
+    pub in_fn: bool,
+    /// nesting depth of for-in loops at the current point
+    pub in_for: usize,
+    /// allow `return` lexically inside a for-in body (known-finding stream)
+    pub return_in_for: bool,
+    pub made_return_in_for: bool,
 }
 
 fn kw(g: &mut Gen, set: &[&'static str]) -> String {
@@ -50,7 +63,27 @@ pub fn gen_cond(g: &mut Gen) -> Vec<String> {
         5 => vec!["equals".into(), "${v0}".into(), g.rng.pick_s(&VALS).to_string()],
         6 => vec!["not".into(), "equals".into(), "${v1}".into(), g.rng.pick_s(&VALS).to_string()],
         7 => vec!["not".into(), format!("${{{}}}", g.rng.pick_s(&FLAGS))],
-        _ => vec!["lt".into(), "${n0}".into(), format!("{}", g.rng.below(4))],
+        _ => {
+            let leafs: Vec<(String, usize, bool)> = g.calls.iter().filter(|c| c.2).cloned().collect();
+            if !leafs.is_empty() && g.rng.chance(1, 2) {
+                let (name, arity, _) = leafs[g.rng.below(leafs.len())].clone();
+                let mut v = vec![name];
+                for _ in 0..arity { v.push(call_arg(g)); }
+                v
+            } else {
+                vec!["lt".into(), "${n0}".into(), format!("{}", g.rng.below(4))]
+            }
+        }
+    }
+}
+
+fn call_arg(g: &mut Gen) -> String {
+    match g.rng.below(5) {
+        0 => "${v0}".to_string(),
+        1 => "${n0}".to_string(),
+        2 => "${1}".to_string(),
+        3 => g.rng.pick_s(&VALS).to_string(),
+        _ => g.rng.below(3).to_string(),
     }
 }
 
@@ -58,6 +91,21 @@ fn gen_simple(g: &mut Gen, out: &mut Vec<String>) -> usize {
     let id = g.next_id;
     g.next_id += 1;
     g.lines += 1;
+    if !g.calls.is_empty() && g.rng.chance(1, 3) {
+        let (name, arity, _) = g.calls[g.rng.below(g.calls.len())].clone();
+        let args: Vec<String> = (0..arity).map(|_| call_arg(g)).collect();
+        let outv = format!("r{}", g.rng.below(3));
+        let o = if g.rng.chance(1, 2) { Some(outv.as_str()) } else { None };
+        out.extend(line(o, &name, &args));
+        return 1;
+    }
+    if g.in_fn && (g.in_for == 0 || g.return_in_for) && g.rng.chance(1, 5) {
+        if g.in_for > 0 { g.made_return_in_for = true; }
+        out.push("R".into());
+        out.push(kw(g, &KW_RET));
+        out.push(match g.rng.below(4) { 0 => "-".to_string(), 1 => enc_str("${1}"), 2 => enc_str("${n0}"), _ => enc_str(g.rng.pick_s(&VALS)) });
+        return 1;
+    }
     match g.rng.below(5) {
         0 => out.extend(line(Some(if g.rng.chance(1, 2) { "v0" } else { "v1" }), "set", &[g.rng.pick_s(&VALS).to_string()])),
         1 => out.extend(line(Some("n0"), "inc", &["${n0}".to_string()])),
@@ -146,7 +194,9 @@ pub fn gen_block(g: &mut Gen, depth: usize, out: &mut Vec<String>) {
             s.push(kw(g, &KW_FOR));
             s.push(enc_str("x"));
             s.push(enc_str(&format!("${{{}}}", h)));
+            g.in_for += 1;
             gen_block(g, depth + 1, &mut s);
+            g.in_for -= 1;
             s.push(kw(g, &KW_ENDFOR));
             stmts.push(s);
         } else {
@@ -195,7 +245,13 @@ pub fn relation_structured(model: &str, imp: &str) -> Option<bool> {
     if spec == "fuel" {
         return None;
     }
-    Some(i[1].strip_prefix("M:")? == spec)
+    let got = i[1].strip_prefix("M:")?;
+    if spec == "fail" {
+        // a program whose tree interpretation fails (a condition that errors, an unknown
+        // command) is outside the domain of well-formed structured programs
+        return None;
+    }
+    Some(got == spec)
 }
 
 pub fn shrink_tree(req: &str) -> Vec<String> {
@@ -273,7 +329,7 @@ impl Prop for C04Prop {
     }
     fn generate(&self, rng: &mut Rng, _tier: Tier) -> Case {
         let vars = init_vars(rng);
-        let mut g = Gen { rng, next_id: 0, lines: 0, max_depth: 4, loops: 0, canonical_only: false };
+        let mut g = Gen { rng, next_id: 0, lines: 0, max_depth: 4, loops: 0, canonical_only: false, calls: vec![], in_fn: false, in_for: 0, return_in_for: false, made_return_in_for: false };
         let mut toks = vec![];
         gen_block(&mut g, 0, &mut toks);
         let deep = toks.iter().filter(|t| *t == "I" || *t == "W" || *t == "F").count() >= 2;
